@@ -193,6 +193,17 @@ def oracle (rest : List String) : String :=
         | _ => x
       if strList got == want then "true" else s!"false want={showStrs want}"
     | _, _ => "bad-op"
+  | "fanout" :: args =>
+    -- one received event (a tick of a crontab, a kubernetes event of a monitor): the operator made exactly
+    -- one task for every binding the configurations bind to it, each for the queue the binding names
+    -- (`main` when it names none). cfg = the bindings as configured, got = the tasks the code made.
+    match kv? "cfg" args, kv? "got" args with
+    | some cfg, some got =>
+      let want := (strList cfg).map fun x => match x.splitOn ":" with
+        | [n, q] => n ++ "=" ++ (if q == "-" then "main" else q)
+        | _ => x
+      if strList got == want then "true" else s!"false tasks-wanted={showStrs want}"
+    | _, _ => "bad-op"
   | "weakstop" :: args =>
     -- free-running workers (no yield points observed): at most one more task per queue after the stop request
     match (kv? "q" args).bind natList?, (kv? "ev" args).bind trace? with
